@@ -48,6 +48,7 @@ def Val.NoSp : Val → Prop
   | .str s => Taint.NoSp s.chars
   | .arr xs => ∀ x ∈ xs, Taint.NoSp x.chars
   | .obj h t => Taint.NoSp h ∧ h = t
+  | .other t => Taint.NoSp t
   | _ => True
 
 /-- the same value with every `Markup` flag dropped (what the engine holds when autoescape is off) -/
@@ -70,6 +71,7 @@ theorem outVal_noop {v : Val} (h : v.NoSp) : outVal true v = outVal false v.plai
   | nil => rfl
   | undef => rfl
   | bool b => rfl
+  | other t => simp only [outVal, Val.plain, if_true, Bool.false_eq_true, if_false]; exact escape_noop h
 
 theorem mixAdd_noop {a b : TStr} (ha : NoSp a.chars) (hb : NoSp b.chars) : (mixAdd a b).chars = a.chars ++ b.chars := by
   unfold mixAdd; split
